@@ -118,6 +118,13 @@ func genC05(r *rand.Rand, run int, tier string) *vm.Plan {
 		if r.Intn(4) == 0 {
 			op.Lim.MaxFacts = []int{len(m.Facts) + 2, 1000, 2 * len(m.Facts) + 3}[r.Intn(3)]
 			op.Lim.MaxIter = []int{m.Depth + 3, 100, m.Depth + 2}[r.Intn(3)]
+		} else if x := r.Intn(10); x < 4 {
+			// the same program through another route of World's API (evaluate a clone, evaluate twice,
+			// add half of the facts after a first evaluation, withdraw other rules before adding these)
+			op.Flags = append(op.Flags, []string{"clone", "rerun", "incremental", "resetrules"}[x])
+			if r.Intn(3) == 0 {
+				op.Flags = append(op.Flags, []string{"clone", "rerun", "incremental", "resetrules"}[r.Intn(4)])
+			}
 		}
 		p.Ops = append(p.Ops, op)
 	}
